@@ -72,7 +72,8 @@ class CallSite:
 
 
 class Analysis:
-    def __init__(self, facts_db, body, models=None):
+    def __init__(self, facts_db, body, models=None, entry_facts=None):
+        self.entry_facts = entry_facts
         if models is None:
             from .models import MODELS
             models = MODELS
@@ -583,10 +584,8 @@ class Analysis:
         if fn == "core::cmp::min":
             a, b = self.as_poly(args[0]), self.as_poly(args[1])
             if a is not None and b is not None:
-                if a == b:
-                    return ("I", a)
-                x, y = sorted([a, b], key=lambda q: repr(q.key()))
-                return ("I", Poly.atom(("min", x, y)))
+                from .poly import mk_min
+                return ("I", mk_min(a, b))
         if fn == "core::mem::size_of":
             return ("I", te.size(targs[0]))
         if fn == "core::mem::needs_drop":
@@ -954,6 +953,8 @@ class Analysis:
     # ---- driver ----------------------------------------------------------------------------
     def entry_state(self):
         st = State()
+        if self.entry_facts:
+            st.facts = frozenset(self.entry_facts(self))
         for i in range(1, self.mir["arg_count"] + 1):
             ty = self.local_ty(i)
             key = (("local", i), ())
@@ -1097,5 +1098,5 @@ class Analysis:
         return [c for c in self.calls if pred(c)]
 
 
-def analyze(db, body, models=None):
-    return Analysis(db, body, models).run()
+def analyze(db, body, models=None, entry_facts=None):
+    return Analysis(db, body, models, entry_facts).run()
